@@ -52,10 +52,15 @@ class Bytes:
 
 class FnItem:
     """A function item / closure used as a value."""
-    immutable = True
 
     def __init__(self, text, captures=()):
         self.text, self.captures = text, list(captures)
+
+    @property
+    def immutable(self):
+        # a closure that captured values must be copied with the state it belongs to (its captures may reference the heap:
+        # e.g. a cloned Memfs handle); plain function items are shared
+        return not self.captures
 
     def get_field(self, n):
         return self.captures[n]
